@@ -456,3 +456,77 @@ def intrinsics_never_recorded(ctx):
     else:
         ctx.inconclusive.append("vacuity: correlate never completed")
     ctx.sample({"paths": E.paths, "excluded by the known finding": sorted(skip)})
+
+
+# ---------------------------------------------------------------------------------------
+# O7: the same in FIXED form: a statement continued in column 6, with comment or blank lines in between, records the same calls
+# ---------------------------------------------------------------------------------------
+FX_FIRST = [("      if (x .gt. 0 .and.", "     &    y .gt. 0) call noargs", ["noargs"]),
+            ("      if (chk(x) .and.", "     1    more(y)) call foo(x)", ["chk", "more", "foo"]),
+            ("      x = bar(y) +", "     +    baz(y)", ["bar", "baz"]),
+            ("      call", "     &  noargs", ["noargs"]),
+            ("      call foo(", "     $  bar(y))", ["foo", "bar"])]
+FX_BETWEEN = [None, "c        a comment line", "C", "*     starred comment", "!     banged comment", "", "      "]
+
+
+def _fx_lines(first, between):
+    mid = [between] if between is not None else []
+    return ["      subroutine caller(obj, buf)", "      use procs", "      integer x, y", first[0]] + mid + [first[1], "      call trun(obj)", "      end subroutine caller"]
+
+
+def replay_fixed_calls(w):
+    import ford.sourceform as sf
+    old = sf.namelist
+    sf.namelist = sf.NameSelector()
+    try:
+        p = parserh.project_concrete({"a.f90": list(MODULE), "b.f": list(w["lines"])}, physical=("b.f",), **PSET)
+        got = sorted(_callnames(p))
+    except Exception as e:  # noqa
+        return True, {"fixed-form lines": w["lines"], "ford": "raised " + repr(e)[:200]}
+    finally:
+        sf.namelist = old
+    want = sorted(set(w["expected"]))
+    return got != want, {"fixed-form lines": w["lines"], "ford_calls": got, "invoked": want}
+
+
+@obligation("C08", "O7.calls-in-fixed-form", engine="SX(CV)", timeout=900)
+def calls_fixed(ctx):
+    """fixed-form caller with one statement continued in column 6 (five marker characters) and a symbolic comment / blank line between the
+    two physical lines, read by the real converter and reader: recorded calls = procedures invoked"""
+    import ford.fixed2free2 as ff
+    import ford.reader as rd
+    import ford.sourceform as sf
+
+    ctx.encode_fn(ff.convertToFree)
+    ctx.encode_fn(ff.FortranLine.continueLine)
+    ctx.encode_fn(rd.FortranReader.__next__)
+    ctx.encode_fn(sf.FortranContainer._add_procedure_calls)
+    ctx.bounds.update({"continued statements": len(FX_FIRST), "lines in between": len(FX_BETWEEN)})
+
+    def h(E):
+        fi = CV.choice(E, "first", list(range(len(FX_FIRST)))).concretize()
+        bi = CV.choice(E, "between", list(range(len(FX_BETWEEN)))).concretize()   # the number of physical lines differs
+        lines = _fx_lines(FX_FIRST[fi], FX_BETWEEN[bi])
+        snap = {"lines": lines, "expected": sorted(FX_FIRST[fi][2] + ["trun"])}
+        E.e.snapshot = lambda m: dict(snap)
+        from fv import patch as _p
+        with _p.suspended():
+            bad, detail = replay_fixed_calls(snap)
+        E.reachable("read")
+        E.require(not bad, "recorded calls of a continued fixed-form statement differ from the procedures invoked")
+
+    E = sym.Engine(ctx, max_paths=500, incremental=True)
+    found = E.explore(h)
+    seen = set()
+    for (label, m, pc), snap in zip(found, E.snapshots):
+        if not snap or str(snap["lines"]) in seen:
+            continue
+        seen.add(str(snap["lines"]))
+        ctx.report(label, snap, replay_fixed_calls)
+        if len(seen) >= 4:
+            break
+    if E.reached.get("read"):
+        ctx.twins += 1
+    else:
+        ctx.inconclusive.append("vacuity: nothing read")
+    ctx.sample({"paths": E.paths})
